@@ -309,7 +309,7 @@ def run_harness(exe, seed, tier, timeout, case_timeout=60, only=None, limit=None
         m = re.search(r'(ERROR: AddressSanitizer: [\w-]+|runtime error: [^\n]*|Assertion [^\n]*failed|terminate called[^\n]*)', err)
         detail = m.group(1) if m else ('killed after %ds without progress' % case_timeout if hung[0] else 'exit %s' % p.returncode)
         # 'context': the harness's last comment lines before it died (e.g. '#in <op> <inputs>' replay aids)
-        crashes.append({'case': cur, 'kind': kind, 'detail': detail, 'stderr_tail': err[-3000:],
+        crashes.append({'case': cur, 'kind': kind, 'detail': detail, 'stderr_tail': err if len(err) <= 6000 else err[:3500] + '\n[...]\n' + err[-2500:],
                         'context': [l for l in lines[-6:] if l.startswith('#in ')][-1:]})
         lines.append(f'#crashed {cur} {kind} {detail}')
         if only is not None or cur is None:
